@@ -241,6 +241,11 @@ impl Run {
             return None;
         }
         let ms = w.addr("ms");
+        if flex && cfg.get("hooked").and_then(|x| x.as_bool()).unwrap_or(false) {
+            // the group notifies the multisig of every membership change (MemberChangedHook)
+            let m = cw4_group::msg::ExecuteMsg::AddHook { addr: ms.to_string() };
+            w.app.execute_contract(ga.clone(), group.clone().unwrap(), &m, &[]).unwrap();
+        }
         // a little money for harmless bank messages of proposals
         let a1 = w.addr("a1");
         w.app.send_tokens(a1, ms.clone(), &coins(5, OTHER)).unwrap();
@@ -644,7 +649,7 @@ pub fn rand_cfg(rng: &mut Rng) -> Value {
             _ => json!({"kind":"cw20","amt":rng.range(1,4),"refund":rng.chance(2,3)}),
         }
     };
-    json!({"flavour": if flex {"flex"} else {"fixed"}, "voters":voters, "thr":rand_thr(rng, total), "pden":PDEN7, "period":period, "executor":executor, "dep":dep})
+    json!({"flavour": if flex {"flex"} else {"fixed"}, "voters":voters, "thr":rand_thr(rng, total), "pden":PDEN7, "period":period, "executor":executor, "dep":dep, "hooked": flex && rng.chance(1, 2)})
 }
 
 pub fn random_run(rng: &mut Rng, run_no: u64, len: usize, out: &mut Out) {
